@@ -288,6 +288,9 @@ package tchannel
 // re-established inside it.)
 //@ func (call *OutboundCall) writeMethod(method []byte) (err error)
 //@   trusted
+// (assumed bounded: it writes arg1 through the fragmenting writer, whose only
+// wait is reqResWriter.flushFragment -- verified `effect bounded` in the C05 file)
+//@   effect bounded
 //@   label sent-ttl-at-least-1ms
 //@   requires call.callReq.TimeToLive >= 1000000
 //@   modifies all
